@@ -822,15 +822,42 @@ func relGuard(name string, fn *ssa.Function, left, right func(ssa.Value) bool, r
 		if !ok {
 			return
 		}
-		if _, isCmp := neg[b.Op]; !isCmp {
+		bop := b.Op
+		// x == 0 / x != 0 for a quantity that cannot be negative (len, cap,
+		// unsigned) is x <= 0 / x > 0
+		if bop == token.EQL || bop == token.NEQ {
+			nonNeg := func(v ssa.Value) bool {
+				if call, ok := ir.Strip(v).(*ssa.Call); ok && (isBuiltin("len")(call) || isBuiltin("cap")(call)) {
+					return true
+				}
+				bt, ok := v.Type().Underlying().(*types.Basic)
+				return ok && bt.Info()&types.IsUnsigned != 0
+			}
+			isZero := func(v ssa.Value) bool { k, isC := ir.ConstInt(v); return isC && k == 0 }
+			switch {
+			case nonNeg(b.X) && isZero(b.Y):
+				if bop == token.EQL {
+					bop = token.LEQ
+				} else {
+					bop = token.GTR
+				}
+			case nonNeg(b.Y) && isZero(b.X):
+				if bop == token.EQL {
+					bop = token.GEQ
+				} else {
+					bop = token.LSS
+				}
+			}
+		}
+		if _, isCmp := neg[bop]; !isCmp {
 			return
 		}
 		var op token.Token
 		switch {
 		case left(b.X) && right(b.Y):
-			op = b.Op
+			op = bop
 		case left(b.Y) && right(b.X):
-			op = mirror[b.Op]
+			op = mirror[bop]
 		default:
 			return
 		}
